@@ -460,6 +460,36 @@ impl ChannelManager {
 //@with
     
 //@end
+// a NEW monitor (ChainMonitor::watch_channel_internal, from the persist call to the end): its first persistence is recorded as pending in the holder that is stored, under the monitor's own update id
+pub struct NewMonitor { pub latest_update_id: u64 }
+pub struct MonitorHolder { pub monitor: NewMonitor, pub pending_monitor_updates: PendingList }
+pub struct PendingList { pub v: Vec<u64> }
+pub struct Mutex {}
+impl Mutex { #[verifier::external_body] pub fn new(v: Vec<u64>) -> (r: PendingList) ensures r.v == v { unimplemented!() } }
+pub struct VacantEntry { pub stored: Ghost<Option<MonitorHolder>> }
+impl VacantEntry { #[verifier::external_body] pub fn insert(&mut self, h: MonitorHolder) ensures final(self).stored@ == Some(h) { unimplemented!() } }
+//@extract lightning/src/chain/chainmonitor.rs :: impl ChainMonitor :: fn watch_channel_internal
+//@slice R15
+    let mut pending_monitor_updates = Vec::new(); let persist_res = $call:seq; match persist_res { ChannelMonitorUpdateStatus::InProgress => { $s:straight }, ChannelMonitorUpdateStatus::Completed => { $t:any }, ChannelMonitorUpdateStatus::UnrecoverableError => { $u:any }, } if let Some(ref chain_source) = self.chain_source { $load:any } entry.insert(MonitorHolder { $fields:any }); Ok(persist_res)
+//@with
+    fn record_first_persistence(persist_res: ChannelMonitorUpdateStatus, monitor: NewMonitor, update_id: u64, entry: &mut VacantEntry) -> Result<ChannelMonitorUpdateStatus, ()> {
+        let mut pending_monitor_updates = Vec::new();
+        match persist_res { ChannelMonitorUpdateStatus::InProgress => { $s }, ChannelMonitorUpdateStatus::Completed => { $t }, ChannelMonitorUpdateStatus::UnrecoverableError => { panics_on_purpose::<()>(); }, }
+        entry.insert(MonitorHolder { $fields }); Ok(persist_res)
+    }
+//@ret r
+//@requires
+    update_id == monitor.latest_update_id,
+//@ensures P C09 the-first-persistence-of-a-new-monitor-that-is-still-in-progress-is-recorded-as-pending-in-the-holder-that-is-stored-so-that-no-later-completion-can-resume-the-channel-before-it
+    r == Ok::<ChannelMonitorUpdateStatus, ()>(persist_res),
+    final(entry).stored@ is Some && final(entry).stored@->Some_0.monitor == monitor,
+    persist_res is InProgress ==> final(entry).stored@->Some_0.pending_monitor_updates.v@ == seq![monitor.latest_update_id],
+    persist_res is Completed ==> final(entry).stored@->Some_0.pending_monitor_updates.v@.len() == 0,
+//@mutant first_persistence_in_progress_not_recorded
+    pending_monitor_updates: Mutex::new(pending_monitor_updates),
+//@with
+    pending_monitor_updates: Mutex::new(Vec::new()),
+//@end
 //@extract lightning/src/chain/chainmonitor.rs :: impl ChainMonitor :: fn update_channel_internal
 //@slice R15
     if $c:cond { let funding_txo = monitor.get_funding_txo(); let channel_id = monitor.channel_id();
